@@ -57,6 +57,12 @@ def check(run):
             run.fail('internal error %s: %s at %s' % (o['type'], o['msg'][:120], o['site']),
                      {'stream': 'adversarial', **d, 'exc': o}, signature=sig)
             continue
+        if o.get('no_progress'):
+            sig = 'pages-unbounded:' + o['no_progress']
+            sites[sig] += 1
+            run.fail('unbounded number of pages: the same resume point comes back for ever (stuck in %s)' % o['no_progress'],
+                     {'stream': 'adversarial', **d}, signature=sig)
+            continue
         npages[min(o['pages'], 50)] += 1
         keys.append((o['pages'], len(d['html']), str(sorted(d['options']))))
         if o['pages'] < 1:
@@ -90,6 +96,9 @@ def wide_report(run, wdocs, outs):
         elif st == 'exc':
             run.fail('internal error %s at %s' % (o['type'], o['site']), {'stream': 'wide', 'html': h, 'exc': o},
                      signature=site_signature(o))
+        elif o.get('no_progress'):
+            run.fail('unbounded number of pages (stuck in %s)' % o['no_progress'], {'stream': 'wide', 'html': h},
+                     signature='pages-unbounded:' + o['no_progress'])
         elif o['pages'] < 1:
             run.fail('document without pages', {'stream': 'wide', 'html': h})
     run.count('wide', len(wdocs), [(len(h), H) for h, _, H in wdocs], samples=[wdocs[0][0][-300:]])
